@@ -16,6 +16,7 @@
    bit-flipped and length-lying datagrams through the real `Server::handle`; the implementation must
    not panic where the model does not) but which is proved elsewhere (C23) or not at all (serialiser). *)
 From V Require Import Model.RateCache Model.Server Proofs.RateCache Proofs.Server.
+From V Require Import Gen.ConstServer.
 
 (* For every address, configuration, cache state, hash function, buffer outcome and datagram
    summary: if the lock is not poisoned, the clock readable, the key set usable and the published
@@ -67,6 +68,19 @@ Proof.
   split; [eexists; split; [vm_compute; reflexivity|reflexivity]|].
   split; [repeat split|]. intros H; discriminate H.
 Qed.
+
+(* census of the panic sites the model makes explicit, regenerated from the sources on every run: a new
+   `unwrap`/`expect`/`unreachable!`/`assert!`/indexing in the handler changes one of these counts and breaks
+   this example (the model must then be revisited).  server.rs (non-test part): one `unreachable!()`, one
+   `.unwrap()` (the lock), no `expect`/`panic!`/`assert!`, two `self.elements[..]`, one `% len`, one
+   `[..length]` on the cursor's buffer (position <= len by Cursor); the answer builders: four
+   "NTS shouldn't work with NTPv3" sites (three on this path), one clock `expect` per header version, two
+   `assert!(duration >= 0)`, one `keys[primary]`; the daemon receives at most 1024 bytes. *)
+Example C22_site_census :
+  SRV_UNREACHABLE = 1 /\ SRV_UNWRAP = 1 /\ SRV_EXPECT = 0 /\ SRV_PANIC_ASSERT = 0 /\ SRV_CACHE_INDEXING = 2 /\
+  SRV_SLICE_TO_LENGTH = 1 /\ SRV_MODULO = 1 /\ PKT_NTS_V3_UNREACHABLE = 4 /\ PKT_CLOCK_EXPECT = 1 /\
+  PKT5_CLOCK_EXPECT = 1 /\ DUR_NONNEG_ASSERT = 2 /\ KEYSET_PRIMARY_INDEX = 1 /\ DAEMON_MAX_PACKET_SIZE = 1024.
+Proof. repeat split; reflexivity. Qed.
 
 Print Assumptions C22_total_partial.
 Print Assumptions C22_history_total_partial.
